@@ -34,7 +34,8 @@ def gen_program(rng, n):
         k = rng.choice(["write", "write", "append", "read", "rplus", "xcreate", "remove", "rename", "replace", "mkdir",
                         "rmdir", "listdir", "stat", "exists", "utime", "oswrite", "copyfile", "touch", "walk", "makedirs",
                         "truncate", "seekwrite", "unlink_open", "readinto_big", "textio", "wplus", "link", "getsize",
-                        "symlink", "symlink", "symlink_abs", "readlink", "lstat", "realpath", "utime_nofollow", "scan"])
+                        "symlink", "symlink", "symlink_abs", "readlink", "lstat", "realpath", "utime_nofollow", "scan",
+                        "dirfsync", "filefsync"])
         a, b = rng.choice(NAMES), rng.choice(NAMES)
         prog.append((k, a, b, rng.randint(0, 20000), rng.randint(0, 255)))
     return prog
@@ -127,6 +128,20 @@ def run_program(root, prog):
                     # entry's error surfaces first)
                     return sorted((e.name, q(e.is_dir), q(e.is_file), e.is_symlink(), e.is_dir(follow_symlinks=False),
                                    e.is_file(follow_symlinks=False)) for e in it)
+            if k == "dirfsync":
+                fd = os.open(pa, os.O_RDONLY)
+                try:
+                    os.fsync(fd)
+                    import stat as S
+                    return S.S_ISDIR(os.fstat(fd).st_mode)
+                finally:
+                    os.close(fd)
+            if k == "filefsync":
+                with open(pa, "ab") as f:
+                    f.write(b"!")
+                    f.flush()
+                    os.fsync(f.fileno())
+                    return os.fstat(f.fileno()).st_size
             if k == "mkdir":
                 return os.mkdir(pa)
             if k == "rmdir":
